@@ -30,4 +30,25 @@ def acceptorCookieOld (node acceptorOpt : Nat) : Nat := acceptCookie node (accep
 /-- connect(): what Start and Join are called with -/
 def routeCookie (node routeOpt : Nat) : Nat := if routeOpt = 0 then node else routeOpt
 
+/- the acceptor over time: node/network.go accept() builds its gen.HandshakeOptions ONCE, before the
+   accept loop (`hopts := gen.HandshakeOptions{Cookie: a.cookie, …}`), and node/acceptor.go SetCookie
+   only assigns the field — so the loop never sees a later SetCookie. -/
+
+structure AccState where
+  field : Nat      -- acceptor.cookie (what Acceptor.Cookie() reports)
+  hopts : Nat      -- hopts.Cookie of the running accept loop
+  deriving DecidableEq, Repr
+
+/-- startAcceptor + `go n.accept(acceptor)` -/
+def startAcc (node opt : Nat) : AccState := ⟨acceptorField node opt, acceptorField node opt⟩
+
+/-- node/acceptor.go SetCookie -/
+def setCookie (s : AccState) (c : Nat) : AccState := { s with field := c }
+
+/-- the cookie the next incoming handshake is checked against -/
+def handshakeCookie (node : Nat) (s : AccState) : Nat := acceptCookie node s.hopts
+
+/-- what the documentation of gen.Acceptor promises: the cookie set last (the node's when that is empty) -/
+def wantedCookie (node : Nat) (s : AccState) : Nat := acceptCookie node s.field
+
 end ErgoVerif.CookieSel
